@@ -798,6 +798,7 @@ func (p *Project) WithServicesTransform(fn func(name string, s ServiceConfig) (S
 		return nil
 	})
 	for n, s := range services {
+		verifYield("M.spawn", n)
 		name := n
 		service := s
 		eg.Go(func() error {
